@@ -42,6 +42,11 @@ type Fault struct {
 	K    int    `json:"k,omitempty"`
 	// get: the client goes away when response number GetCut+1 is written
 	GetCut int `json:"getcut,omitempty"`
+	// get, Touch: immediately before the abandoned Get a primary session programs again, with
+	// their current payload, one installed entry of every table (state-neutral writes), so
+	// that the abandoned Get is the first read after a write - the harness's own complete Gets
+	// must not be what keeps a server-side read cache warm
+	Touch bool `json:"touch,omitempty"`
 }
 
 // Case: a history is consumed batch by batch by a sequence of sessions, each
@@ -61,7 +66,7 @@ type Case struct {
 
 func setup() {
 	c := ev.C()
-	c.Rule = "scripts (negotiate, elect, batches of generated operations; Gets over the resulting contents) x every cut point (after each message sent, after each response read, at the K-th response of a batch) x termination mode {half-close, context cancel, transport error on the server's Recv, transport error on the server's Send, client stops reading then cancels}; Get abandoned after each received response 0..n; sequences of 1-3 such faults; plus the same scripts against the server behind a real grpc.Server over bufconn (CloseSend, context cancellation, connection teardown, client that never reads then cancels, abandoned Get stream, and a flood that stalls the server's writer in HTTP/2 flow control before the client goes away). For every generated script all single-fault (cut, mode) pairs are enumerated, plus rapid-drawn multi-fault sequences. Oracle after every fault, once the RPC has ended and its goroutines are parked (goroutine-state quiescence): entries read through a fresh Get equal the belief-model state after SOME prefix of the sent operations that includes every acknowledged one; the highest learnt election id equals the maximum announced in the delivered messages; then a probe session (negotiate, win the election, one ADD, Get, Flush of one instance) must complete under the watchdog; a hang is classified from the goroutine dump. Non-trivial = a cut at the K-th response inside a batch, or inside a Get stream with entries remaining; distinct by FNV-64 of the case JSON."
+	c.Rule = "scripts (negotiate, elect, batches of generated operations; Gets over the resulting contents) x every cut point (after each message sent, after each response read, at the K-th response of a batch) x termination mode {half-close, context cancel, transport error on the server's Recv, transport error on the server's Send, client stops reading then cancels}; Get abandoned after each received response 0..n (half of them as the first read after state-neutral writes to every table); sequences of 1-3 such faults; plus the same scripts against the server behind a real grpc.Server over bufconn (CloseSend, context cancellation, connection teardown, client that never reads then cancels, abandoned Get stream, and a flood that stalls the server's writer in HTTP/2 flow control before the client goes away). For every generated script all single-fault (cut, mode) pairs are enumerated, plus rapid-drawn multi-fault sequences. Oracle after every fault, once the RPC has ended and its goroutines are parked (goroutine-state quiescence): entries read through a fresh Get equal the belief-model state after SOME prefix of the sent operations that includes every acknowledged one; the highest learnt election id equals the maximum announced in the delivered messages; then a probe session (negotiate, win the election, one ADD, Get, Flush of one instance) must complete under the watchdog; a hang is classified from the goroutine dump. Non-trivial = a cut at the K-th response inside a batch, or inside a Get stream with entries remaining; distinct by FNV-64 of the case JSON."
 	c.Assumptions = []string{"servers run with forward references disallowed so that the belief model is deterministic for unanswered operations", "transport failures are emulated at the stream interface (exact cut points); the real-transport class uses grpc over an in-memory bufconn listener (no kernel TCP)"}
 }
 
@@ -433,8 +438,78 @@ func (r *runner) floodFault(fi int, f Fault) bool {
 	return r.observe(when, sent, 0)
 }
 
+// touch re-programs one installed entry per table with its current payload.
+func (r *runner) touch(when string) bool {
+	seen := map[string]bool{}
+	var ops []*gen.Op
+	id := gen.ID128{Hi: 0, Lo: uint64(r.round*10 + 3)}
+	for i := r.next - 1; i >= 0; i-- {
+		o := r.ops[i]
+		if o.Act == gen.DELETE || seen[o.Kind] {
+			continue
+		}
+		p := o.Proto()
+		k, ok := model.KeyOf(o.NI, p)
+		if !ok {
+			continue
+		}
+		cur, inst := r.belief.Ent[k]
+		if !inst || !model.PayloadEqual(cur, model.Payload(p)) || !r.belief.Resolvable(o.NI, model.Payload(p)) {
+			// (the probes flush VRF-B: an entry whose group lived there cannot be programmed again)
+			continue
+		}
+		seen[o.Kind] = true
+		oo := *o
+		oo.ID = uint64(800000 + len(ops))
+		oo.Act = gen.ADD
+		oo.Elec = &id
+		ops = append(ops, &oo)
+	}
+	if len(ops) == 0 {
+		return true
+	}
+	x := r.s.Open()
+	x.Send(drive.StdParams(false))
+	x.Send(&spb.ModifyRequest{ElectionId: id.Proto()})
+	req := &spb.ModifyRequest{}
+	for _, o := range ops {
+		req.Operation = append(req.Operation, o.Proto())
+	}
+	if _, hg := x.Send(req); hg != nil {
+		l2.HangFinding(r.v, "C10", hg)
+		return false
+	}
+	rs, ended, hg := x.Barrier()
+	if hg != nil {
+		l2.HangFinding(r.v, "C10", hg)
+		return false
+	}
+	acks := 0
+	for _, m := range rs {
+		for _, a := range m.GetResult() {
+			if a.GetStatus() == spb.AFTResult_RIB_PROGRAMMED {
+				acks++
+			}
+		}
+	}
+	if ended || acks != len(ops) {
+		r.fail("touch-failed", "%s: re-programming %d installed entries with their current payload: ended=%v (%v), %d acknowledged: %v", when, len(ops), ended, x.Err(), acks, rs)
+		return false
+	}
+	r.announce(id)
+	if hg := x.Close(); hg != nil {
+		l2.HangFinding(r.v, "C10", hg)
+		return false
+	}
+	r.v.Class("get-right-after-writes")
+	return true
+}
+
 func (r *runner) getFault(fi int, f Fault) bool {
 	when := fmt.Sprintf("fault %d (%+v)", fi, f)
+	if f.Touch && !r.touch(when) {
+		return false
+	}
 	total := len(r.belief.Ent)
 	cut := f.GetCut
 	if cut > total {
@@ -570,7 +645,7 @@ func TestCampaign(t *testing.T) {
 			}
 			// abandoned Gets over the loaded contents: first load everything cleanly
 			for g := 0; g <= nops; g++ {
-				cases = append(cases, Case{H: h, Batch: batch, Faults: []Fault{{Kind: "modify", NBatches: 99, Cut: 99, Read: true, Mode: "halfclose"}, {Kind: "get", GetCut: g}}})
+				cases = append(cases, Case{H: h, Batch: batch, Faults: []Fault{{Kind: "modify", NBatches: 99, Cut: 99, Read: true, Mode: "halfclose"}, {Kind: "get", GetCut: g, Touch: g%2 == 1}}})
 			}
 			for _, c := range cases {
 				v := runCase(c)
@@ -600,7 +675,7 @@ func TestCampaign(t *testing.T) {
 					continue
 				}
 				seen[g] = true
-				cases = append(cases, Case{H: h, Batch: batch, Faults: []Fault{load, {Kind: "get", GetCut: g}}})
+				cases = append(cases, Case{H: h, Batch: batch, Faults: []Fault{load, {Kind: "get", GetCut: g, Touch: len(cases)%2 == 1}}})
 			}
 			nb := (nops + batch - 1) / batch
 			for _, k := range []int{3, batch / 2, batch - 1, batch, batch + 1, batch + 2, batch + 3, 2 + batch + 16, 2 + batch + 32, 2 + batch + 33, nops} {
@@ -644,7 +719,7 @@ func TestCampaign(t *testing.T) {
 			load := Fault{Kind: "modify", NBatches: 99, Cut: 99, Read: true, Mode: "halfclose"}
 			for i := 0; i < 2; i++ {
 				g := rapid.IntRange(0, nops).Draw(rt, "getcut")
-				cases = append(cases, Case{Net: true, H: h, Batch: batch, Faults: []Fault{load, {Kind: "get", GetCut: g}}})
+				cases = append(cases, Case{Net: true, H: h, Batch: batch, Faults: []Fault{load, {Kind: "get", GetCut: g, Touch: i == 1}}})
 			}
 			if rapid.IntRange(0, 3).Draw(rt, "flood?") == 0 {
 				mode := []string{"flow-control-cancel", "flow-control-connclose"}[rapid.IntRange(0, 1).Draw(rt, "floodmode")]
@@ -668,7 +743,7 @@ func TestCampaign(t *testing.T) {
 			nf := rapid.IntRange(2, 3).Draw(rt, "nfaults")
 			for i := 0; i < nf; i++ {
 				if rapid.IntRange(0, 3).Draw(rt, "get?") == 0 {
-					c.Faults = append(c.Faults, Fault{Kind: "get", GetCut: rapid.IntRange(0, 6).Draw(rt, "getcut")})
+					c.Faults = append(c.Faults, Fault{Kind: "get", GetCut: rapid.IntRange(0, 6).Draw(rt, "getcut"), Touch: rapid.Bool().Draw(rt, "touch")})
 					continue
 				}
 				f := Fault{Kind: "modify", NBatches: rapid.IntRange(0, 3).Draw(rt, "nbatches"), Mode: modes[rapid.IntRange(0, len(modes)-1).Draw(rt, "mode")]}
